@@ -136,6 +136,8 @@ def refinement_guard(ck, facts, R):
 
 
 def run(ck, facts, tier):
+    from shared import fixedpoint as _fpx
+    _fpx.loop_exits(ck, facts, "C10.FIXPOINT-EXITS")
     from shared import state
     state.any_future_answer(ck, facts, "C10.ANY-FUTURE")
     state.result_stores(ck, facts, "C10.RESULT-STORES")
